@@ -29,6 +29,7 @@ import (
 
 	"github.com/lindb/lindb/kv/table"
 	"github.com/lindb/lindb/pkg/bufioutil"
+	"github.com/lindb/lindb/pkg/verifhook"
 )
 
 //go:generate mockgen -source=./version_set.go -destination=./version_set_mock.go -package=version
@@ -305,6 +306,7 @@ func (vs *storeVersionSet) initJournal() error {
 	if vs.manifest == nil {
 		manifestFileName := ManifestFileName(table.FileNumber(vs.manifestFileNumber.Load())) // manifest file name
 		manifestPath := vs.getManifestFilePath(manifestFileName)
+		verifhook.Yield("kv.fs.createManifest")
 		writer, err := newBufferWriterFunc(manifestPath)
 		if err != nil {
 			return err
@@ -347,9 +349,11 @@ func (vs *storeVersionSet) setCurrent(manifestFile string) error {
 	current := vs.getCurrentPath()
 	tmp := fmt.Sprintf("%s.%s", current, TmpSuffix)
 	// write manifest file name into current file
+	verifhook.Yield("kv.fs.writeCurrentTmp")
 	if err := writeFileFunc(tmp, []byte(manifestFile), 0666); err != nil {
 		return fmt.Errorf("write manifest file name into current tmp file error:%s", err)
 	}
+	verifhook.Yield("kv.fs.renameCurrent")
 	if err := renameFunc(tmp, current); err != nil {
 		return fmt.Errorf("rename current tmp file name to current error:%s", err)
 	}
@@ -441,6 +445,7 @@ func (vs *storeVersionSet) persistEditLogs(writer bufioutil.BufioWriter, editLog
 		if err != nil {
 			return fmt.Errorf("encode edit log error:%s", err)
 		}
+		verifhook.Yield("kv.fs.appendRecord")
 		if _, err := writer.Write(v); err != nil {
 			return fmt.Errorf("write edit log error:%s", err)
 		}
